@@ -522,6 +522,44 @@ def check_tfrec(ctx: Context, rep, rule: str) -> None:
                f"{writer.get(d, ('<rejected>', None))[0]}",
                message="serialized-tensor attributes are parsed back for "
                "exactly the dtypes stored that way")
+    # a serialized tensor is converted to the declared dtype first
+    from sa.norm import expand
+    for d, (kind, node) in sorted(writer.items()):
+        if not kind.endswith("serialize_tensor"):
+            continue
+        sers = [c for st in node.body for c in ast.walk(st) if isinstance(
+            c, ast.Call) and ast.unparse(c.func).endswith("serialize_tensor")]
+        ok = False
+        shown = "<none>"
+        for c in sers:
+            arg = c.args[0] if c.args else None
+            shown = short(arg)
+            # the serialized value is (re)bound in this arm from an astype /
+            # np.array(.., dtype=<declared dtype>) conversion
+            convs = [x for st in node.body for x in ast.walk(st) if isinstance(
+                x, ast.Call) and ((isinstance(x.func, ast.Attribute) and
+                                   x.func.attr == "astype") or any(
+                                       k.arg == "dtype" for k in x.keywords))]
+            for x in convs:
+                dt = ctx.arg(x, 0, "dtype") if isinstance(
+                    x.func, ast.Attribute) and x.func.attr == "astype" else \
+                    ctx.arg(x, None, "dtype")
+                dtt = ast.unparse(dt) if dt is not None else ""
+                if dtt.endswith("attribute.dtype") or dtt in (f"np.{d}",
+                                                              f"numpy.{d}",
+                                                              repr(d)):
+                    p = parent(x)
+                    tgt = None
+                    if isinstance(p, ast.Assign):
+                        tgt = dotted(p.targets[0])
+                    if (tgt is not None and dotted(arg) == tgt) or any(
+                            y is x for y in ast.walk(arg or ast.Constant(0))):
+                        ok = True
+        rep.ob(rule, ok, loc=to.loc(node), where=to.qualname,
+               construct=f"{d}: serialize_tensor({shown})",
+               message="the tensor serialized for a declared dtype is "
+               "converted to that dtype first (parse_tensor with the declared "
+               "dtype rejects any other stored dtype)", sample=False)
     # str is encoded utf-8
     enc = [c for c in to.calls() if isinstance(c.func, ast.Attribute) and
            c.func.attr == "encode"]
@@ -732,6 +770,8 @@ SELFTESTS = [
                      new='        elif attribute.dtype in ["float32", "float64"]:\n'),
                 dict(path=_TFD, old='    "float16": tf.float16,\n    "float64": tf.float64,\n}',
                      new='    "float16": tf.float16,\n}')]),
+    dict(rule="C01.tfrec", name="serialized-without-astype", expect="fire", path=_TFD,
+         old="            value = value.astype(dtype=attribute.dtype)\n", new=""),
     dict(rule="C01.tfrec", name="uint64-as-int64", expect="fire", path=_TFD,
          old='if attribute.dtype in ["int8", "uint8", "int32", "int64"]:',
          new='if attribute.dtype in ["int8", "uint8", "int32", "int64", "uint64"]:'),
